@@ -115,7 +115,6 @@ impl Unreal2Protocol {
 
             let r = Self::consume_response_headers(&mut buffer, PacketKind::MutatorsAndRules);
             if r.is_err() {
-                println!("{:?}", r);
                 break;
             }
 
